@@ -11,7 +11,7 @@ META = dict(
     instance_obligations=['generated_table_covers (Proofs/PermInstance.v: covers Gen.PermTable.tbl = true, vm_compute, re-checked on the table regenerated from the current source)',
                           'generated_eval_perm_* (Proofs/PermInstance.v: four lemmas about Gen.PermTable.eval_perm as regenerated from execution.py)',
                           'generated_shape_ok (Proofs/EvalInstance.v: shape_ok Gen.EvalShape.shape = true — the plan of evaluate() regenerated from execution.py pops only Expr/Assign and re-uses the evaluated result for complex targets)',
-                          'generated_out_plan_ok (Proofs/EvalOutInstance.v: plan_ok Gen.EvalOut.out_plan = true — as regenerated from execution.py, global_vars win over context symbols, an inner context over an outer one, __builtins__ is skipped and a name is reported iff it is new or bound to another object than the snapshot taken before execution)'],
+                          'generated_out_plan_ok (Proofs/EvalOutInstance.v: plan_ok Gen.EvalOutPlan.out_plan = true — as regenerated from execution.py, global_vars win over context symbols, an inner context over an outer one, __builtins__ is skipped and a name is reported iff it is new or bound to another object than the snapshot taken before execution)'],
     technique='Coq proof over a rose-tree AST model (induction on the tree) + table regenerated from parsing.py by a fail-closed ast translator + differential correspondence and sentinel oracle',
     design_ref='DESIGN.md §5 C19',
     level_text=('Theorems (any program, any nesting depth, any of the 256 permission sets): the validator rejects iff some node needs a withheld flag; '
@@ -247,7 +247,7 @@ REQUIRED = {'Assign': 'ASSIGN', 'AugAssign': 'ASSIGN', 'AnnAssign': 'ASSIGN', 'N
             'Assert': 'EXCEPTION', 'ClassDef': 'CLASS_DEFINITION', 'FunctionDef': 'FUNCTION_DEFINITION', 'AsyncFunctionDef': 'FUNCTION_DEFINITION',
             'Lambda': 'FUNCTION_DEFINITION', 'Import': 'IMPORT', 'ImportFrom': 'IMPORT'}
 
-GENERATED = {'Gen/PermTable.v': perm_table.translate, 'Gen/EvalShape.v': eval_shape.translate, 'Gen/EvalOut.v': eval_outputs.translate}
+GENERATED = {'Gen/PermTable.v': perm_table.translate, 'Gen/EvalShape.v': eval_shape.translate, 'Gen/EvalOutPlan.v': eval_outputs.translate}
 
 def py():
   from pyglove.core.coding import parsing, permissions, execution, errors
@@ -772,7 +772,7 @@ def parseable(snips):
 def run(ctx):
   info = ctx.regen('Gen/PermTable.v', perm_table.translate)
   ctx.regen('Gen/EvalShape.v', eval_shape.translate)
-  ctx.regen('Gen/EvalOut.v', eval_outputs.translate)
+  ctx.regen('Gen/EvalOutPlan.v', eval_outputs.translate)
   ctx.build()
   if info is None:
     kinds = perm_table.node_kinds(); flag_order = FLAG_NAMES
